@@ -4,6 +4,8 @@ import (
 	"bytes"
 	"fmt"
 	"strconv"
+
+	"github.com/bluenviron/mediamtx/internal/protocols/moq/varint"
 )
 
 // Transport of a seed: how its messages are delivered to the worker.
@@ -130,7 +132,7 @@ type wire struct {
 
 // Materialize returns the concrete messages of the exchange. last=true means the connection is closed after them
 // (always the case; for truncations the remaining messages are simply not sent).
-func (e *Exchange) Materialize() []wire {
+func (e *Exchange) Materialize(patch func(i int, d []byte) []byte) []wire {
 	s := e.Seed
 	out := make([]wire, 0, len(s.Msgs))
 	m := e.Mut
@@ -144,8 +146,13 @@ func (e *Exchange) Materialize() []wire {
 	for pos, i := range order {
 		msg := &s.Msgs[i]
 		data := msg.Data
+		if patch != nil {
+			data = patch(i, data)
+		}
 		if m.Kind != mSeed && m.Kind != mSwap && i == m.Msg {
-			data = applyMut(msg, m)
+			mm := *msg
+			mm.Data = data
+			data = applyMut(&mm, m)
 		}
 		if s.Cookie {
 			data = bytes.ReplaceAll(data, []byte(cookiePlaceholder), []byte(fmt.Sprintf("ck%010d", e.ID)))
@@ -254,58 +261,66 @@ func fieldValues(msg *Msg, f Field) [][]byte {
 		}
 	case fVar:
 		v := varintDecode(cur)
-		for _, x := range []uint64{0, 1, v - 1, v + 1, v * 2, 63, 64, 16383, 16384, 65535, 65536, 1<<30 - 1, 1 << 30, 1<<62 - 1} {
-			x &= 1<<62 - 1
+		for _, x := range []uint64{0, 1, v - 1, v + 1, v * 2, 127, 128, 16383, 16384, 65535, 65536, 1<<21 - 1, 1 << 21, 1<<31 - 1, 1 << 31,
+			1<<56 - 1, 1 << 56, 1<<63 - 1, 1 << 63, ^uint64(0)} {
 			add(varintEncode(x))
 		}
 		// non-minimal encodings of the current value
-		add(varintEncodeN(v, 2))
-		add(varintEncodeN(v, 4))
-		add(varintEncodeN(v, 8))
+		for _, n := range []int{2, 3, 5, 9} {
+			if b := varintEncodeN(v, n); b != nil {
+				add(b)
+			}
+		}
 	}
 	return out
 }
 
+// MoQ variable-length integers (draft-17+, section 1.4.1): the number of leading one bits of the first byte gives the
+// number of additional bytes. The repository's codec is used for the canonical forms.
 func varintDecode(b []byte) uint64 {
-	if len(b) == 0 {
+	var v varint.Varint
+	if _, err := v.Unmarshal(b); err != nil {
 		return 0
 	}
-	n := 1 << (b[0] >> 6)
-	v := uint64(b[0] & 0x3F)
-	for i := 1; i < n && i < len(b); i++ {
-		v = v<<8 | uint64(b[i])
-	}
-	return v
+	return uint64(v)
 }
 
-func varintLen(b byte) int { return 1 << (b >> 6) }
-
-func varintEncode(v uint64) []byte {
-	switch {
-	case v < 1<<6:
-		return varintEncodeN(v, 1)
-	case v < 1<<14:
-		return varintEncodeN(v, 2)
-	case v < 1<<30:
-		return varintEncodeN(v, 4)
+func varintLen(b byte) int {
+	n := 1
+	for m := byte(0x80); m != 0 && b&m != 0; m >>= 1 {
+		n++
 	}
-	return varintEncodeN(v, 8)
+	if n > 9 {
+		n = 9
+	}
+	return n
 }
 
+func varintEncode(v uint64) []byte { return varint.Varint(v).Marshal() }
+
+// varintEncodeN encodes v on exactly n bytes (2..9), possibly non-minimally; nil when it does not fit.
 func varintEncodeN(v uint64, n int) []byte {
+	if n < 2 || n > 9 {
+		return nil
+	}
 	b := make([]byte, n)
-	for i := 0; i < n; i++ {
+	for i := 0; i < n-1; i++ {
 		b[n-1-i] = byte(v >> (8 * i))
 	}
-	switch n {
-	case 1:
-		b[0] &= 0x3F
-	case 2:
-		b[0] = b[0]&0x3F | 0x40
-	case 4:
-		b[0] = b[0]&0x3F | 0x80
-	case 8:
-		b[0] = b[0]&0x3F | 0xC0
+	switch {
+	case n <= 7:
+		bits := 8 - n // value bits in the first byte
+		if v>>(8*(n-1)+bits) != 0 {
+			return nil
+		}
+		b[0] = byte(0xFF<<(9-n)) | byte(v>>(8*(n-1)))
+	case n == 8:
+		if v>>56 != 0 {
+			return nil
+		}
+		b[0] = 0xFE
+	default:
+		b[0] = 0xFF
 	}
 	return b
 }
